@@ -29,6 +29,7 @@ type Config struct {
 	IfaceContracts map[string]*Contract // "IfaceName.Method" -> contract
 	Resolver     func(iface types.Type, method string) *ssa.Function
 	Debug        bool
+	IfaceFrame   func(itype types.Type, method string) (effects []string, impls int)
 	StrictExternals bool // abort instead of havoc on unmodelled externals
 	DecAbstract  bool // two-symbolic-operand Dec products/quotients become uninterpreted with sign/zero/unit facts
 	EnvRef       *Env
@@ -82,6 +83,7 @@ type Exec struct {
 	forceMemo map[*LazyV]Val
 	sliceMemo map[*LazyV]*SliceV
 	UsedContracts map[string]bool
+	specArith bool
 	TopKey    string
 	Externals map[string]bool
 	TopForalls []*smt.Term
